@@ -151,7 +151,11 @@ func (t *TempoController) Tags(w http.ResponseWriter, r *http.Request) {
 		if i != 0 {
 			w.Write([]byte(","))
 		}
-		w.Write([]byte(strconv.Quote(tag)))
+		bTag, err := json.Marshal(tag)
+		if err != nil {
+			continue
+		}
+		w.Write(bTag)
 		i++
 	}
 	w.Write([]byte("]}"))
@@ -306,7 +310,11 @@ func (t *TempoController) Values(w http.ResponseWriter, r *http.Request) {
 		if i != 0 {
 			w.Write([]byte(","))
 		}
-		w.Write([]byte(strconv.Quote(val)))
+		bVal, err := json.Marshal(val)
+		if err != nil {
+			continue
+		}
+		w.Write(bVal)
 		i++
 	}
 	w.Write([]byte(`]}`))
